@@ -1221,3 +1221,55 @@ theorem rebalLeaf_spec (ws : Array (WsItem K)) (N0 P0 : Nat) (wok : WsOk ws N0 P
           rcases (hAl n).1 hn with ⟨hh, rfl⟩ | ⟨hh, rfl⟩
           · exact A2.ltI hh
           · exact A2.ltL hh
+
+/-! ## the recursive case -/
+
+theorem allocOpen_spec (q : Q K) (par plane : Nat) (N0 : Nat) (hn : q.freeList.Nodup) (hl : ∀ n ∈ q.freeList, n < N0)
+    (h0 : N0 ≤ q.nodes.size) (q0 : Q K) (nid : Nat) (h : allocOpen q par plane = some (q0, nid)) :
+    RFrame q q0 ∧ q0.proxies = q.proxies ∧ (∀ m, Al q q0 m ↔ m = nid) ∧ nid < q0.nodes.size ∧
+      (∀ m, m ≠ nid → q0.nodes[m]? = q.nodes[m]?) ∧ q0.nodes[nid]? = some (openNode par plane) := by
+  unfold allocOpen at h
+  cases hf : q.freeList with
+  | nil =>
+    simp only [hf, Option.some.injEq, Prod.mk.injEq] at h
+    obtain ⟨rfl, rfl⟩ := h
+    refine ⟨⟨rfl, by simp, ⟨[], by simp [hf]⟩, rfl⟩, rfl, ?_, by simp, ?_, by simp⟩
+    · intro m
+      simp only [Al, hf, List.not_mem_nil, false_and, false_or, Array.size_push]
+      omega
+    · intro m hm
+      by_cases hlt : m < q.nodes.size
+      · simp [Array.getElem?_push, Nat.ne_of_lt hlt]
+      · rw [Array.getElem?_eq_none (by simp; omega), Array.getElem?_eq_none (by omega)]
+  | cons n rest =>
+    have hnr : n ∉ rest := by rw [hf] at hn; exact (List.nodup_cons.1 hn).1
+    have hnlt : n < q.nodes.size := by have := hl n (by simp [hf]); omega
+    simp only [hf, writeNode, hnlt, if_true, Option.map_some, Option.some.injEq, Prod.mk.injEq] at h
+    obtain ⟨rfl, rfl⟩ := h
+    refine ⟨⟨rfl, by simp, ⟨[n], by simp [hf]⟩, rfl⟩, rfl, ?_, by simpa using hnlt, ?_, by simp [Array.getElem?_setIfInBounds, hnlt]⟩
+    · intro m
+      simp only [Al, hf, List.mem_cons, Array.size_setIfInBounds]
+      constructor
+      · rintro (⟨a | a, b⟩ | ⟨a, b⟩)
+        · exact a
+        · exact absurd a b
+        · omega
+      · intro e; subst e; exact Or.inl ⟨Or.inl rfl, hnr⟩
+    · intro m hm
+      simp [Array.getElem?_setIfInBounds, Ne.symm hm]
+
+/-- kept nodes are never allocated -/
+theorem kept_not_al {ws : Array (WsItem K)} {N0 P0 : Nat} (wok : WsOk ws N0 P0) {q q' : Q K} (st : StOk ws N0 P0 q)
+    (ix : Array Nat) (k : Nat) (hk : KeptIn ws ix k) : ¬ Al q q' k := by
+  obtain ⟨i, _, it, e, e1, rfl⟩ := hk
+  rintro (⟨x, _⟩ | ⟨x, _⟩)
+  · exact st.keptFree i it e e1 x
+  · have := (wok.keptLt i it e e1).1; have := st.n0; omega
+
+/-- nodes allocated by two calls that are not necessarily consecutive are different -/
+theorem Al.disjoint' {ws : Array (WsItem K)} {N0 P0 : Nat} {a b c d : Q K} (st : StOk ws N0 P0 a)
+    (h1 : RFrame a b) (h2 : RFrame b c) (h3 : RFrame c d) (n : Nat) : Al a b n → ¬ Al c d n := by
+  intro x y
+  have stb := st.frame h1
+  have : Al b d n := (Al.trans_iff h2 h3 stb.flNodup stb.flLt stb.n0 n).2 (Or.inr y)
+  exact Al.disjoint h1 (h2.trans h3) st.flNodup st.flLt st.n0 n x this
